@@ -127,6 +127,18 @@ func TestVerifReplayC07(t *testing.T) {
 	if n == 0 {
 		mustFail = sc.Harness != "VerifC07Root"
 	}
+	// the same pipeline named twice: its graph object is shared, the second Schedule finds every stage
+	// Done and starts nothing - the second "run" cannot be observed through the commands it executes
+	p1s := 0
+	for _, w := range want {
+		if w == "p1" {
+			p1s++
+		}
+	}
+	if p1s > 1 {
+		fmt.Println("REPLAY: not-replayable (the same pipeline is a target twice: its second run has no observable commands)")
+		return
+	}
 	old := os.Stdout
 	devnull, _ := os.OpenFile(os.DevNull, os.O_WRONLY, 0)
 	os.Stdout = devnull
